@@ -106,6 +106,8 @@ def parse_type(s: str) -> T:
             return NONE
         if name == 'Set':
             return SET(args[0])
+        if name == 'Deque':
+            return T('set', (args[0],), 'deque')     # duplicate-free FIFO: a set whose pop raises IndexError
         if name == 'List':
             return T('list', (args[0],))
         if name == 'Cnt':
